@@ -105,49 +105,43 @@ fn log_rule_update(map: &RuleMap) {
     }
 }
 
-/// different from
+/// `append_rule` adds one rule to the rules already loaded for its resource,
+/// the returned `bool` is false only if exactly this rule has been given before
+// This func acquires locks on global `RULE_MAP` and `CONTROLLER_MAP`,
+// please release your locks on them before calling this func
 pub fn append_rule(rule: Arc<Rule>) -> bool {
-    if RULE_MAP
-        .lock()
-        .unwrap()
+    let mut global_rule_map = RULE_MAP.lock().unwrap();
+    if global_rule_map
         .get(&rule.resource)
-        .unwrap_or(&HashSet::new())
-        .contains(&rule)
+        .map_or(false, |rules| rules.contains(&rule))
     {
         return false;
     }
-    match rule.is_valid() {
-        Ok(_) => {
-            RULE_MAP
-                .lock()
-                .unwrap()
-                .entry(rule.resource.clone())
-                .or_default()
-                .insert(Arc::clone(&rule));
-        }
-        Err(err) => logging::warn!(
-            "[Flow load_rules] Ignoring invalid flow rule {:?}, reason: {:?}",
+    if let Err(err) = rule.is_valid() {
+        logging::warn!(
+            "[Flow append_rule] Ignoring invalid flow rule {:?}, reason: {:?}",
             rule,
             err
-        ),
+        );
+        return true;
     }
-    let mut placeholder = Vec::new();
-    let new_tcs_of_res = build_resource_traffic_shaping_controller(
-        &rule.resource,
-        RULE_MAP.lock().unwrap().get(&rule.resource).unwrap(),
-        CONTROLLER_MAP
-            .lock()
-            .unwrap()
-            .get_mut(&rule.resource)
-            .unwrap_or(&mut placeholder),
-    );
-    if !new_tcs_of_res.is_empty() {
-        CONTROLLER_MAP
-            .lock()
-            .unwrap()
-            .entry(rule.resource.clone())
-            .or_default()
-            .push(Arc::clone(&new_tcs_of_res[0]));
+    global_rule_map
+        .entry(rule.resource.clone())
+        .or_default()
+        .insert(Arc::clone(&rule));
+    let mut controller_map = CONTROLLER_MAP.lock().unwrap();
+    let tcs_of_res = controller_map.entry(rule.resource.clone()).or_default();
+    // an equal rule (whatever its id) is already enforced, nothing to build
+    if !tcs_of_res.iter().any(|tc| tc.rule() == &rule) {
+        let mut rule_set = HashSet::with_capacity(1);
+        rule_set.insert(Arc::clone(&rule));
+        // the controllers already enforced stay in place, so none of them hands over its statistic
+        let mut new_tcs =
+            build_resource_traffic_shaping_controller(&rule.resource, &rule_set, &mut Vec::new());
+        tcs_of_res.append(&mut new_tcs);
+    }
+    if tcs_of_res.is_empty() {
+        controller_map.remove(&rule.resource);
     }
     true
 }
